@@ -140,10 +140,15 @@ func sigKeys(numParts int) []string {
 }
 
 // Staged persists the staging transaction as well as the channel's phase.
+// The signature slots are written together with the staged state, so that
+// signatures persisted for a previous staging transaction never remain next to
+// a new (or discarded) staged state.
 func (pr *PersistRestorer) Staged(_ context.Context, s channel.Source) error {
 	db := pr.channelDB(s.ID()).NewBatch()
 
-	if err := dbPutSource(db, s, "staging:state", "phase"); err != nil {
+	numParts := len(s.Params().Parts)
+	keys := append([]string{"staging:state", "phase"}, sigKeys(numParts)...)
+	if err := dbPutSource(db, s, keys...); err != nil {
 		return err
 	}
 
